@@ -23,7 +23,7 @@ _PP = {
     "forall(lambda j: implies(0 <= j and j < len(atom_to_bond), atom_to_bond[j] == old(atom_to_bond[min(j, len(atom_to_bond) - 1 + rlow(string, len(string)))])))":
         "each-level-is-the-atom-it-was-opened-from:characters-are-read-in-order",
 }
-contract("token._push_pop_atom_branch", props=["C02"],
+contract("token._push_pop_atom_branch", props=["C02", "C04"],
          params=dict(string=STR, atom_to_bond=List(INT)), returns=List(INT),
          # the text never closes more branches than are open at that point (otherwise the stack runs empty: IndexError, or a silently shortened stack)
          requires=["len(atom_to_bond) >= 1", "forall(lambda i: implies(0 <= i and i <= len(string), len(atom_to_bond) + rlow(string, i) >= 1))"], assumes=list(_DEFS),
